@@ -3,6 +3,7 @@ package props
 import (
 	"fmt"
 	"hash/crc32"
+	"math"
 	"net/url"
 	"strconv"
 	"strings"
@@ -30,6 +31,9 @@ type c11World struct {
 	MPD     string `json:"mpd,omitempty"`
 	Cfg     URLCfg `json:"cfg"`
 	TTL     int    `json:"ttl,omitempty"`
+	// TimeOffsetMS mirrors a timeoffset_X URL part (server clock = request instant + X); the
+	// simulated player follows the server clock (UTCTiming), so TTL ages are counted on it.
+	TimeOffsetMS int64 `json:"timeoffset_ms,omitempty"`
 }
 
 type c11Op struct {
@@ -127,12 +131,39 @@ func (C11) Gen(rng *core.Rng, tier string, idx int) *core.Scenario {
 			cfg.Continuous = true
 		}
 	}
+	// availabilityTimeOffset: finite, below / equal to / above the segment duration, with and
+	// without chunked (low-latency) mode; biased towards a tsbd that is no multiple of the
+	// segment duration, where window-start changes and live-edge changes fall apart.
+	atoMS := int64(0)
+	if rng.Chance(0.35) {
+		segSf := float64(a.SegDurMS) / 1000
+		cfg.Ato = core.Pick(rng, []string{"0.5", "1", "1.5", fmt.Sprintf("%.3f", segSf/2), fmt.Sprintf("%.3f", segSf-0.5),
+			fmt.Sprintf("%.3f", segSf), fmt.Sprintf("%.3f", segSf+0.5), fmt.Sprintf("%.3f", segSf*1.5), fmt.Sprintf("%.3f", segSf*2.5)})
+		atoMS = int64(math.Round(cfg.AtoS() * 1000))
+		if rng.Chance(0.5) {
+			cfg.ChunkDur = core.Pick(rng, []string{"0.25", "0.5", "1"})
+		}
+		if rng.Chance(0.7) {
+			v := segS*rng.Range(1, 15) + rng.Range(1, segS*2-1)
+			if v%segS == 0 {
+				v++
+			}
+			cfg.Tsbd = pint(v)
+		}
+	}
+	var timeOffsetMS int64
+	if rng.Chance(0.08) {
+		off := core.Pick(rng, []string{"3", "0.5", "1.5", "10", "-3", "-0.5"})
+		cfg.Extra = append(cfg.Extra, "timeoffset_"+off)
+		f, _ := strconv.ParseFloat(off, 64)
+		timeOffsetMS = int64(math.Round(f * 1000))
+	}
 	ttl := core.Pick(rng, []int{1, 2, 5, 10, 20, 30, 60, 60, 120, 300})
 	cfg.Extra = append(cfg.Extra, fmt.Sprintf("patch_%d", ttl))
 	if rng.Chance(0.08) {
 		cfg.Extra = append(cfg.Extra, core.Pick(rng, []string{"timesubsstpp_en", "timesubswvtt_en,sv"}))
 	}
-	w := c11World{Kind: "live", VodRoot: "bundled", Asset: ca.Ref.Asset, MPD: ca.Ref.MPD, Cfg: cfg, TTL: ttl}
+	w := c11World{Kind: "live", VodRoot: "bundled", Asset: ca.Ref.Asset, MPD: ca.Ref.MPD, Cfg: cfg, TTL: ttl, TimeOffsetMS: timeOffsetMS}
 	sc := core.NewScenario("C11", "tlsim", 0, tier, w)
 
 	ast := cfg.AST() * 1000
@@ -142,8 +173,15 @@ func (C11) Gen(rng *core.Rng, tier string, idx int) *core.Scenario {
 		if k < 0 {
 			return ast
 		}
-		return availMS(cfg.AST(), a.Live(ref, k).End, ref.Timescale, 0)
+		v := availMS(cfg.AST(), a.Live(ref, k).End, ref.Timescale, 0) - atoMS
+		if v < ast {
+			v = ast
+		}
+		return v - timeOffsetMS
 	}
+	// leave(j): the instant at which segment j stops being listed (it ended tsbd ago, seen
+	// through the availabilityTimeOffset) = a change at the window start
+	leave := func(j int64) int64 { return avail(j) + tsbdMS }
 	nOps := rng.Range(3, 6)
 	if tier == "thorough" {
 		nOps = rng.Range(6, 14)
@@ -158,7 +196,10 @@ func (C11) Gen(rng *core.Rng, tier string, idx int) *core.Scenario {
 		}
 		k := a.LastEndedBy(ref, rel) // newest complete segment at rel
 		class := core.Pick(rng, []string{"same", "same", "one", "one", "one", "several", "several", "wrap", "period", "period",
-			"ttl-edge", "ttl-beyond", "random", "start-only"})
+			"ttl-edge", "ttl-beyond", "random", "start-only", "window-start", "window-start"})
+		if (atoMS > 0 || cfg.Tsbd != nil && *cfg.Tsbd%segS != 0) && rng.Chance(0.4) {
+			class = "window-start"
+		}
 		if class == "period" && cfg.Periods == nil {
 			class = "several"
 		}
@@ -194,6 +235,37 @@ func (C11) Gen(rng *core.Rng, tier string, idx int) *core.Scenario {
 			// aim at the instant where the oldest segment leaves the window while the edge stands still
 			t1 = b0 + rng.Range64(0, (b1-b0)/2)
 			t2 = rng.Range64(t1+1, b1-1)
+		case "window-start":
+			// straddle the instant L at which the oldest segment leaves: both sides, +-1 ms, and
+			// inside the ato-wide interval after it
+			L := leave(k - int64(rng.Intn(3)))
+			atoW := atoMS
+			if atoW < 1 {
+				atoW = 1
+			}
+			switch rng.Intn(8) {
+			case 0:
+				t1, t2 = L-1, L
+			case 1:
+				t1, t2 = L-1, L+1
+			case 2:
+				t1, t2 = L, L+1
+			case 3:
+				t1 = L + rng.Range64(0, atoW)
+				t2 = t1 + rng.Range64(1, atoW)
+			case 4:
+				t1 = L + rng.Range64(0, atoW)
+				t2 = L + atoW + rng.Range64(0, a.SegDurMS)
+			case 5:
+				t1 = L - rng.Range64(1, atoW)
+				t2 = L + rng.Range64(0, atoW)
+			case 6:
+				t1 = L + rng.Range64(0, atoW)
+				t2 = t1 + rng.Range64(1, 3*a.SegDurMS)
+			default:
+				t1 = L - rng.Range64(1, a.SegDurMS)
+				t2 = L + rng.Range64(0, a.SegDurMS)
+			}
 		case "period":
 			pd := int64(3600 / *cfg.Periods * 1000)
 			pb := (t1/pd + 1) * pd // next period boundary
@@ -218,8 +290,11 @@ func (C11) Gen(rng *core.Rng, tier string, idx int) *core.Scenario {
 		default:
 			t2 = t1 + rng.Range64(1, 2*tsbdMS+10000)
 		}
-		if t1 < ast {
-			t1 = ast
+		if t1 < ast-timeOffsetMS {
+			t1 = ast - timeOffsetMS
+		}
+		if t1 < 0 {
+			t1 = 0
 		}
 		if t2 <= t1 {
 			t2 = t1 + 1
@@ -252,8 +327,25 @@ func (C11) Run(t *testing.T, sc *core.Scenario, res *core.Result) {
 		panic("harness: unknown asset " + w.Asset)
 	}
 	feat := merge(w.Cfg.Features(a), assetTraits(a), core.Sig("segend", c11SegEnd(a), "scenario", "live"))
-	delete(feat, "ato")
 	delete(feat, "snr")
+	feat["ato"] = "0"
+	if atoS := w.Cfg.AtoS(); atoS > 0 && a.SegDurMS > 0 {
+		switch atoMS := int64(math.Round(atoS * 1000)); {
+		case atoMS < a.SegDurMS:
+			feat["ato"] = "lt-seg"
+		case atoMS == a.SegDurMS:
+			feat["ato"] = "eq-seg"
+		default:
+			feat["ato"] = "gt-seg"
+		}
+	}
+	if _, ok := feat["chunked"]; !ok {
+		feat["chunked"] = "false"
+	}
+	feat["timeoffset"] = "none"
+	if w.TimeOffsetMS != 0 {
+		feat["timeoffset"] = "set"
+	}
 	for _, op := range ops {
 		if op.T2 <= op.T1 {
 			continue
@@ -468,7 +560,7 @@ func c11LiveOp(res *core.Result, srv *hx.Srv, a *refmodel.Asset, w c11World, fea
 		}
 		return false
 	}
-	if op.T1 < w.Cfg.AST()*1000 {
+	if op.T1+w.TimeOffsetMS < w.Cfg.AST()*1000 {
 		res.Count("probe.skipped-before-start")
 		return
 	}
@@ -545,7 +637,7 @@ func c11LiveOp(res *core.Result, srv *hx.Srv, a *refmodel.Asset, w c11World, fea
 	}
 	feat = merge(feat, core.Sig("publishTime", ptFeat, "as-ids", asIDs))
 	sig = func(kv ...string) map[string]string { return merge(feat, core.Sig(kv...)) }
-	if ref := a.Ref(); a.LastEndedBy(ref, op.T2-astMS)-a.LastEndedBy(ref, op.T1-astMS) >= 2 {
+	if ref := a.Ref(); a.LastEndedBy(ref, op.T2+w.TimeOffsetMS-astMS)-a.LastEndedBy(ref, op.T1+w.TimeOffsetMS-astMS) >= 2 {
 		res.Count("probe.several-segments-added")
 	}
 	rp := get("patch", m1.location, op.T2)
@@ -556,7 +648,19 @@ func c11LiveOp(res *core.Result, srv *hx.Srv, a *refmodel.Asset, w c11World, fea
 	if op.T1 < 1_500_000_000_000 || op.T1 > 2_000_000_000_000 {
 		res.Count("fault.clock-far-from-usual")
 	}
-	if op.T1-astMS < w.Cfg.TsbdS()*1000 {
+	if w.TimeOffsetMS != 0 {
+		res.Count("fault.server-clock-offset")
+	}
+	if w.Cfg.AtoS() > 0 {
+		res.Count("probe.ato-pair")
+		if w.Cfg.ChunkDur != "" {
+			res.Count("probe.ato-chunked-pair")
+		}
+	}
+	if op.Class == "window-start" {
+		res.Count("op.window-start-pair")
+	}
+	if op.T1+w.TimeOffsetMS-astMS < w.Cfg.TsbdS()*1000 {
 		res.Count("fault.poll-just-after-start")
 	}
 	if op.T2-op.T1 > int64(m1.ttlS*1000) {
@@ -581,7 +685,8 @@ func c11LiveOp(res *core.Result, srv *hx.Srv, a *refmodel.Asset, w c11World, fea
 
 	// TTL zones (DESIGN Appendix B: expiry asserted only with one minute of slack on the late side).
 	ttlMS := int64(m1.ttlS * 1000)
-	within := op.T2-m1.publishMS <= ttlMS
+	// ages are counted on the server clock the player is synchronised to (request instant + timeoffset)
+	within := op.T2+w.TimeOffsetMS-m1.publishMS <= ttlMS
 	beyond := op.T2-op.T1 >= ttlMS+60000
 	switch {
 	case within:
@@ -594,7 +699,15 @@ func c11LiveOp(res *core.Result, srv *hx.Srv, a *refmodel.Asset, w c11World, fea
 
 	// base: how the server's own reconstruction of "the MPD with that publishTime" relates to the
 	// MPD the player really holds (diagnostic feature only, computed when something is reported).
+	baseMemo := ""
+	var baseFeat0 func() string
 	baseFeat := func() string {
+		if baseMemo == "" {
+			baseMemo = baseFeat0()
+		}
+		return baseMemo
+	}
+	baseFeat0 = func() string {
 		rb := srv.Get(mpdPath + "?publishTime=" + url.QueryEscape(m1.publish))
 		res.Event("mpd-by-publishTime status=%d len=%d crc=%08x", rb.Status, len(rb.Body), crc32.ChecksumIEEE(rb.Body))
 		if rb.Status != 200 {
